@@ -122,6 +122,10 @@ func (a *Account) Sign(msg []byte) []byte {
 	if err != nil {
 		panic(err)
 	}
+	if a.Algo == keys.ETHSECP && len(msg) != 32 {
+		// go-ethereum signs 32-byte digests only
+		msg = ethcrypto.Keccak256(msg)
+	}
 	sig, err := h.Sign(msg)
 	if err != nil {
 		panic(fmt.Sprintf("sign %s: %v", a.Label, err))
